@@ -58,6 +58,17 @@ def catalog():
                 "threads": [[["sleep", 0.5], shutdown_op(wait, None), ["threads"], sub("after"), shutdown_op(wait, None)],
                             [["sleep", 0.5], sub("s0"), sub("s1")], [["sleep", 0.5], ["runall", "ex"]]],
                 "settle": 2, "final": [["runall", "ex"], ["sleep", 2]]}}
+            # the worker is already mid-iteration (woken by the submits/completions) when shutdown starts
+            out["race-late/%s/wait=%s" % (lname, wait)] = {"prog": {
+                "setup": pre,
+                "threads": [[["sleep", 0.5], sub("s0"), sub("s1")], [["sleep", 0.5], ["runall", "ex"]],
+                            [["sleep", 0.5], shutdown_op(wait, None), ["threads"], sub("after"), shutdown_op(wait, None)]],
+                "settle": 2, "final": [["runall", "ex"], ["sleep", 2]]}}
+        # two threads calling shutdown() at the same instant
+        out["double/%s" % lname] = {"prog": {
+            "setup": [build([lname], man), sub("p0"), ["sleep", 0.01]],
+            "threads": [[["sleep", 0.5], shutdown_op(False, None), sub("after")], [["sleep", 0.5], shutdown_op(False, None), sub("after2")]],
+            "settle": 2, "final": [["runall", "ex"], ["sleep", 1]]}}
     # a submit() parked by a blocking throttle must not keep shutdown(wait=False) from returning
     out["parked-submit/throttle-block"] = {"prog": {
         "setup": [build(["throttle-block"], {"kind": "pool", "workers": 1}), sub("p0", [["gate", "g", ["tag"]]]), sub("p1"), ["sleep", 0.25]],
@@ -98,7 +109,7 @@ def evaluate(case):
         return viols, info
     if not sds:
         return viols, info
-    first = sds[0]
+    first = min(sds, key=lambda o: o["ret_seq"])  # the first shutdown() to have returned
     for o in sds:
         if o["result"][0] != "ok":
             bad("shutdown-raised:%s" % o["result"][1], result=o["result"], first=o is first)
@@ -110,15 +121,18 @@ def evaluate(case):
         if o["op"][0] != "submit" or not o["op"][1].startswith("ex"):
             continue
         r = o["result"]
-        overl = o["call_seq"] < first["ret_seq"] and (o["ret_seq"] or 0) > first["call_seq"]
+        overl = o["call_seq"] < first["ret_seq"] and (o["ret_seq"] or 0) > min(x["call_seq"] for x in sds)
         if overl:
             nt = True
-        if o["call_seq"] > first["ret_seq"]:
+        inner_target = ":" in o["op"][1]
+        settled = all(x["ret_seq"] < o["call_seq"] for x in sds if x["call_seq"] < o["call_seq"])
+        if o["call_seq"] > first["ret_seq"] and (settled or not inner_target):
+            # (a submit aimed at a wrapped executor is only covered once every shutdown() call in progress has returned)
             if not (r[0] == "exc" and r[1] == "RuntimeError" and r[2] == MSG):
                 bad("submit-after-shutdown:%s" % (r[1] if r[0] == "exc" else r[0]), result=r[:3], level=o["op"][1])
         elif r[0] == "exc" and not (r[1] == "RuntimeError" and r[2] == MSG):
             bad("racing-submit-raised-other:%s" % r[1], result=r[:3])
-        elif r[0] == "exc" and o["ret_seq"] < first["call_seq"]:
+        elif r[0] == "exc" and o["ret_seq"] < min(x["call_seq"] for x in sds):
             bad("submit-refused-before-shutdown", result=r[:3])
     # propagation: one shutdown per tap and at the base, same arguments
     seen = {}
@@ -136,12 +150,14 @@ def evaluate(case):
         d = evs[0][4]
         if d["wait"] != wait or d["kwargs"] != kwargs:
             bad("delegate-shutdown-arguments", at=t, got=[d["wait"], d["kwargs"]], want=[wait, kwargs])
-        if not (first["call_seq"] < evs[0][0] < first["ret_seq"]):
-            bad("delegate-shutdown-outside-first-shutdown-call", at=t)
+        if not any(o["call_seq"] < evs[0][0] < o["ret_seq"] for o in sds):
+            bad("delegate-shutdown-outside-any-shutdown-call", at=t)
     # threads
     if wait is True:
         for o in ops:
-            if o["op"][0] == "threads" and o["call_seq"] > first["ret_seq"] and o["result"][0] == "ok":
+            # (a concurrent, losing shutdown() may return while the winner is still joining: wait for all of them)
+            if o["op"][0] == "threads" and o["result"][0] == "ok" and \
+                    all(x["ret_seq"] < o["call_seq"] for x in sds if x["call_seq"] < o["call_seq"]) and o["call_seq"] > first["ret_seq"]:
                 alive = [n for n in o["result"][1] if n.split("-")[0] in ("RetryExecutor", "PollExecutor", "ThrottleExecutor", "TimeoutExecutor", "ThreadPoolExecutor")]
                 if alive:
                     bad("threads-alive-after-shutdown-wait:%s" % "+".join(sorted(set(n.split("-")[0] for n in alive))), alive=alive)
@@ -201,6 +217,8 @@ def case_strategy():
             main.append(["sleep", d])
         main += [["open", "g"], shutdown_op(wait, cf), ["threads"], sub("after", None, target), shutdown_op(wait, cf), sub("after2", None, target)]
         threads = [main]
+        if draw(st.integers(0, 4)) == 0:
+            threads.append(([["sleep", d]] if d else []) + [shutdown_op(wait, cf)])
         for t in range(draw(st.integers(0, 2))):
             ops = []
             dd = draw(st.sampled_from([0, 0, 0.25, 0.5]))
@@ -211,6 +229,8 @@ def case_strategy():
             threads.append(ops)
         if basekind == "manual" and draw(st.booleans()):
             threads.append([["sleep", draw(st.sampled_from([0, 0.25]))], ["runall", "ex"]])
+        if draw(st.booleans()):
+            threads = threads[1:] + threads[:1]  # the shutdown thread is not always the first to run at an instant
         prog = {"setup": setup, "threads": threads, "settle": 2, "final": [["open", "g"], ["sleep", 1]]}
         return {"prog": prog, "tape": draw(gen.tapes(8)), "clock": draw(st.sampled_from(["exact", "exact", "preempt"])), "max_vtime": 200}
 
